@@ -14,22 +14,25 @@ package dblookupext
 //                      icell(h,8*e+0) = 1 when a record is stored in epoch e
 //                      scell(h,8*e+1) = HeaderHash            icell(h,8*e+2) = Epoch field
 //                      icell(h,8*e+3) = NotarizedAtSourceInMetaNonce   icell(h,8*e+4) = NotarizedAtDestinationInMetaNonce
-// ccell(c,k) is the same device for the deduplication cache (1 = the key has been put at some time; an LRU cache may
+// ccell(c,k) is the same device for the deduplication cache (key = epoch, block header hash, miniblock hash) (1 = the key has been put at some time; an LRU cache may
 // forget, so Has() implies "was put", not the converse).
 
 /*@
 // icell / scell / ccell / sid: ghost cells of the storage interfaces, declared in storage/contracts_verif.go
 spec fn mbHashOf(mb *block.MiniBlock) string
-spec fn dedupKey(epoch uint32, h string) string
-  axiom dedupEpoch(dedupKey(epoch, h)) == epoch
-  axiom dedupHash(dedupKey(epoch, h)) == h
+// dedupKey: the Sprintf("%d_%x_%x", epoch, blockHeaderHash, miniblockHash) key, injective in its three components
+spec fn dedupKey(epoch uint32, hh string, h string) string
+  axiom dedupEpoch(dedupKey(epoch, hh, h)) == epoch
+  axiom dedupHeader(dedupKey(epoch, hh, h)) == hh
+  axiom dedupHash(dedupKey(epoch, hh, h)) == h
 spec fn dedupEpoch(k string) uint32
+spec fn dedupHeader(k string) string
 spec fn dedupHash(k string) string
 
 spec fn mdi(hr *historyRepository, h string, e int, f int) int = icell(hr.miniblocksMetadataStorer, h, 8*e + f)[0]
 spec fn mds(hr *historyRepository, h string, e int, f int) string = scell(hr.miniblocksMetadataStorer, h, 8*e + f)[0]
 spec fn epochOf(hr *historyRepository, h string) int = icell(hr.epochByHashIndex.storer, h, 0)[0]
-spec fn marked(hr *historyRepository, e uint32, h string) bool = ccell(hr.deduplicationCacheForInsertMiniblockMetadata, dedupKey(e, h))[0] == 1
+spec fn marked(hr *historyRepository, e uint32, hh string, h string) bool = ccell(hr.deduplicationCacheForInsertMiniblockMetadata, dedupKey(e, hh, h))[0] == 1
 spec fn wired(hr *historyRepository) bool = hr.epochByHashIndex != nil && !isNil(hr.miniblocksMetadataStorer) && !isNil(hr.miniblockHashByTxHashIndex) && !isNil(hr.epochByHashIndex.storer) && !isNil(hr.deduplicationCacheForInsertMiniblockMetadata)
   && sid(hr.miniblocksMetadataStorer) != sid(hr.epochByHashIndex.storer)
   && sid(hr.miniblocksMetadataStorer) != sid(hr.miniblockHashByTxHashIndex)
@@ -97,35 +100,41 @@ func (hr *historyRepository) getMiniblockMetadataByMiniblockHash(hash []byte) (m
   assigns nothing
 
 // ---- deduplication cache ------------------------------------------------------------------------------------------
-func (hr *historyRepository) buildKeyOfDeduplicationCacheForInsertMiniblockMetadata(miniblockHash []byte, epoch uint32) (key []byte)
+func (hr *historyRepository) buildKeyOfDeduplicationCacheForInsertMiniblockMetadata(blockHeaderHash []byte, miniblockHash []byte, epoch uint32) (key []byte)
   trusted
-  ensures injective-key: str(key) == dedupKey(epoch, str(miniblockHash))
+  ensures injective-key: str(key) == dedupKey(epoch, str(blockHeaderHash), str(miniblockHash))
   assigns nothing
 
-func (hr *historyRepository) hasRecentlyInsertedMiniblockMetadata(miniblockHash []byte, epoch uint32) (r bool)
+func (hr *historyRepository) hasRecentlyInsertedMiniblockMetadata(blockHeaderHash []byte, miniblockHash []byte, epoch uint32) (r bool)
   requires wired(hr)
-  ensures was-marked: r ==> marked(hr, epoch, str(miniblockHash))
+  ensures was-marked: r ==> marked(hr, epoch, str(blockHeaderHash), str(miniblockHash))
   assigns nothing
 
-func (hr *historyRepository) markMiniblockMetadataAsRecentlyInserted(miniblockHash []byte, epoch uint32)
+func (hr *historyRepository) markMiniblockMetadataAsRecentlyInserted(blockHeaderHash []byte, miniblockHash []byte, epoch uint32)
   requires wired(hr)
-  ensures marked: marked(hr, epoch, str(miniblockHash))
-  assigns elems(ccell(hr.deduplicationCacheForInsertMiniblockMetadata, dedupKey(epoch, str(miniblockHash))))
+  ensures marked: marked(hr, epoch, str(blockHeaderHash), str(miniblockHash))
+  assigns elems(ccell(hr.deduplicationCacheForInsertMiniblockMetadata, dedupKey(epoch, str(blockHeaderHash), str(miniblockHash))))
 
 // ---- the property -------------------------------------------------------------------------------------------------
 // C46: after a successful record of miniblock mb in block blockHeaderHash (epoch e) the lookup data of H(mb) names THIS block.
 func (hr *historyRepository) recordMiniblock(blockHeaderHash []byte, blockHeader data.HeaderHandler, miniblock *block.MiniBlock, epoch uint32) (err error)
   requires wired(hr) && miniblock != nil && !isNil(blockHeader)
-  // (a) the miniblock was not marked as recently inserted for this epoch: the record is written
-  ensures fresh-epoch-index: err == nil && !old(marked(hr, epoch, mbHashOf(miniblock))) ==> epochOf(hr, mbHashOf(miniblock)) == epoch + 1
-  ensures fresh-present: err == nil && !old(marked(hr, epoch, mbHashOf(miniblock))) ==> mdi(hr, mbHashOf(miniblock), epoch, 0) == 1
-  ensures fresh-header-hash: err == nil && !old(marked(hr, epoch, mbHashOf(miniblock))) ==> mds(hr, mbHashOf(miniblock), epoch, 1) == str(blockHeaderHash)
-  ensures fresh-epoch-field: err == nil && !old(marked(hr, epoch, mbHashOf(miniblock))) ==> mdi(hr, mbHashOf(miniblock), epoch, 2) == epoch
-  ensures marked: err == nil ==> marked(hr, epoch, mbHashOf(miniblock))
-  // (b) C46 asks the same when the miniblock WAS recorded before in this epoch (competing block): F46 — these fail on the
-  //     deduplication-hit return, where nothing is written although blockHeaderHash may differ from the stored one
-  ensures rerecord-header-hash: err == nil && old(marked(hr, epoch, mbHashOf(miniblock))) ==> mds(hr, mbHashOf(miniblock), epoch, 1) == str(blockHeaderHash)
-  ensures rerecord-epoch-index: err == nil && old(marked(hr, epoch, mbHashOf(miniblock))) ==> epochOf(hr, mbHashOf(miniblock)) == epoch + 1
+  // (a) THIS block's record of the miniblock is not marked as recently inserted: the record is written
+  ensures fresh-epoch-index: err == nil && !old(marked(hr, epoch, str(blockHeaderHash), mbHashOf(miniblock))) ==> epochOf(hr, mbHashOf(miniblock)) == epoch + 1
+  ensures fresh-present: err == nil && !old(marked(hr, epoch, str(blockHeaderHash), mbHashOf(miniblock))) ==> mdi(hr, mbHashOf(miniblock), epoch, 0) == 1
+  ensures fresh-header-hash: err == nil && !old(marked(hr, epoch, str(blockHeaderHash), mbHashOf(miniblock))) ==> mds(hr, mbHashOf(miniblock), epoch, 1) == str(blockHeaderHash)
+  ensures fresh-epoch-field: err == nil && !old(marked(hr, epoch, str(blockHeaderHash), mbHashOf(miniblock))) ==> mdi(hr, mbHashOf(miniblock), epoch, 2) == epoch
+  ensures marked: err == nil ==> marked(hr, epoch, str(blockHeaderHash), mbHashOf(miniblock))
+  // (b) C46 asks the same when the miniblock WAS recorded before in this epoch in a COMPETING block (another header hash):
+  //     F46, repaired — the deduplication key now carries the header hash, so the competing record is not skipped
+  ensures rerecord-header-hash: err == nil && old(exists hh string :: hh != str(blockHeaderHash) && marked(hr, epoch, hh, mbHashOf(miniblock)))
+    && !old(marked(hr, epoch, str(blockHeaderHash), mbHashOf(miniblock))) ==> mds(hr, mbHashOf(miniblock), epoch, 1) == str(blockHeaderHash)
+  ensures rerecord-epoch-index: err == nil && old(exists hh string :: hh != str(blockHeaderHash) && marked(hr, epoch, hh, mbHashOf(miniblock)))
+    && !old(marked(hr, epoch, str(blockHeaderHash), mbHashOf(miniblock))) ==> epochOf(hr, mbHashOf(miniblock)) == epoch + 1
+  // (c) ... and when THIS block's record is still marked (the same block committed again after a competing block was recorded
+  //     in between: A, B, A): residual F46b — fails on the deduplication-hit return, nothing is written and B stays reported
+  ensures rerecord-same-block-header-hash: err == nil && old(marked(hr, epoch, str(blockHeaderHash), mbHashOf(miniblock))) ==> mds(hr, mbHashOf(miniblock), epoch, 1) == str(blockHeaderHash)
+  ensures rerecord-same-block-epoch-index: err == nil && old(marked(hr, epoch, str(blockHeaderHash), mbHashOf(miniblock))) ==> epochOf(hr, mbHashOf(miniblock)) == epoch + 1
 
 loop 1
   // an interface call with a frame inside the loop makes the engine havoc the whole heap at the loop head: restate what is kept
@@ -138,7 +147,7 @@ loop 1
   invariant str(blockHeaderHash) == old(str(blockHeaderHash))
   invariant epochOf(hr, mbHashOf(miniblock)) == epoch + 1 && mdi(hr, mbHashOf(miniblock), epoch, 0) == 1
     && mds(hr, mbHashOf(miniblock), epoch, 1) == str(blockHeaderHash) && mdi(hr, mbHashOf(miniblock), epoch, 2) == epoch
-    && marked(hr, epoch, mbHashOf(miniblock))
+    && marked(hr, epoch, str(blockHeaderHash), mbHashOf(miniblock))
 
 func (hr *historyRepository) GetMiniblockMetadataByTxHash(hash []byte) (md *MiniblockMetadata, err error)
   requires wired(hr)
@@ -150,13 +159,24 @@ func (hr *historyRepository) GetMiniblockMetadataByTxHash(hash []byte) (md *Mini
   assigns nothing
 
 // record, then look up (over the contracts): after the FIRST record of a miniblock in an epoch the lookup by miniblock
-// hash names that block and epoch. (For a re-record in a competing block this is exactly what F46 breaks.)
+// hash names that block and epoch.
 lemma lookup-after-first-record-names-the-block
   vars hr *historyRepository, h []byte, hdr data.HeaderHandler, mb *block.MiniBlock, e uint32, mbh []byte
-  hyp  wired(hr) && mb != nil && !isNil(hdr) && !marked(hr, e, mbHashOf(mb))
+  hyp  wired(hr) && mb != nil && !isNil(hdr) && !marked(hr, e, str(h), mbHashOf(mb))
   call err = hr.recordMiniblock(h, hdr, mb, e)
   call md, err2 = hr.getMiniblockMetadataByMiniblockHash(mbh)
   concl names-this-block: err == nil && err2 == nil && str(mbh) == mbHashOf(mb) ==> str(md.HeaderHash) == str(h) && md.Epoch == e
+
+// the F46 scenario over the contracts: the miniblock is stored and marked for a dropped block hA (same epoch); recording
+// it in the competing block h makes the lookup name h.
+lemma competing-block-replaces-the-dropped-one
+  vars hr *historyRepository, hA []byte, h []byte, hdr data.HeaderHandler, mb *block.MiniBlock, e uint32, mbh []byte
+  hyp  wired(hr) && mb != nil && !isNil(hdr) && str(hA) != str(h)
+  hyp  marked(hr, e, str(hA), mbHashOf(mb)) && mds(hr, mbHashOf(mb), e, 1) == str(hA) && epochOf(hr, mbHashOf(mb)) == e + 1
+  hyp  !marked(hr, e, str(h), mbHashOf(mb))
+  call err = hr.recordMiniblock(h, hdr, mb, e)
+  call md, err2 = hr.getMiniblockMetadataByMiniblockHash(mbh)
+  concl names-the-competing-block: err == nil && err2 == nil && str(mbh) == mbHashOf(mb) ==> str(md.HeaderHash) == str(h) && md.Epoch == e
 
 func (hr *historyRepository) GetEpochByHash(hash []byte) (e uint32, err error)
   requires wired(hr)
